@@ -232,6 +232,7 @@ struct Gen {
   void g_churn() { int rounds = (int)ch.range(2, 5); for (int i = 0; i < rounds; i++) { size_t before = groups.size(); g_fill(); if (groups.size() > before) { GGroup g = groups.back(); out.push_back(Op("rfree").u("s", (uint64_t)g.s0).u("k", (uint64_t)g.k).u("step", 1).u("ph", 0)); for (int j = 0; j < g.k; j++) note_free(g.s0 + j); } } }
   void g_talloc() {
     size_t n = ch.chance(1, 2) ? ch.of(g_classes) : ch.range(1, 200*KiB); size_t k = ch.range(1, 40); if (k * n > 32*MiB) k = 1;
+    if (pf.big_ok + census_ok > 0 && nhuge < 3 && ch.chance(1, 16)) { n = ch.range(16*MiB + 1, 24*MiB); k = 1; }   // a huge block (own segment) left behind by a thread
     if (next_slot + (int)k > NSLOTS || live_bytes + k * n > 512*MiB) return; int s0 = next_slot; next_slot += (int)k;
     Op op("talloc"); op.u("s", (uint64_t)s0).u("k", k).u("n", n); if (ch.chance(1, 4)) op.s("f", "zalloc"); if (subprocs && ch.chance(1, 2)) op.u("sp", ch.pick(2)); out.push_back(op);
     for (size_t i = 0; i < k; i++) note_alloc(s0 + (int)i, n, 1, 0, false, -1);
